@@ -203,6 +203,24 @@ def run(repo, rep, tier):
             inner = inner._parent
         pa = [(unparse(t), pp) for t, pp, k in path_condition(apps[0].stmt, stop=inner) if k in ('if', 'guard')]
         rep.check('separation', 'header append is guarded by "did not parse" and "not empty"', ('self.__banner is not None', False) in pa and ('len(line.strip()) == 0', False) in pa, apps[0].stmt, 'header append guards: %s' % pa)
+    # a line is handed to the banner parser only when it is complete: BytesIO.readline() also returns an unterminated tail, and a banner that reaches
+    # the tool in two TCP segments would be parsed as its first half.  The read_line() call must lie behind a guard that looks for the line terminator
+    # in the unread bytes (directly, or through a helper whose body does), with the end of the stream as the only way around it.
+    def _mentions_newline(e, depth=0):
+        for x in ast.walk(e):
+            if isinstance(x, ast.Constant) and x.value in (b'\n', '\n', b'\r\n', '\r\n'):
+                return True
+            if isinstance(x, ast.Call) and isinstance(x.func, ast.Attribute) and isinstance(x.func.value, ast.Name) and x.func.value.id == 'self' and depth < 2:
+                for cls_ in (repo.cls('ssh_socket', 'SSH_Socket'), repo.cls('readbuf', 'ReadBuf')):
+                    for m_ in cls_.body:
+                        if isinstance(m_, ast.FunctionDef) and m_.name == x.func.attr and m_.name not in ('read_line', 'get_banner') and _mentions_newline(m_, depth + 1):
+                            return True
+        return False
+    for rl_call in [n for n in walk_no_nested(gb) if isinstance(n, ast.Call) and unparse(n.func) == 'self.read_line']:
+        guards = [(t, pol) for t, pol, k in path_condition(rl_call) if k in ('if', 'guard') and _mentions_newline(t)]
+        rep.check('separation', 'only complete lines are handed to the banner parser', bool(guards), rl_call,
+                  'get_banner() parses whatever read_line() returns after each recv(): a banner (or header) line that arrives in two TCP segments is parsed as its first half (e.g. "SSH-2.0-Open" | "SSH_8.9") and the remainder is taken for packet data',
+                  stmt='read_line guarded by a line-terminator test')
     # get_banner hands out the header list object itself, and audit() keeps it until the report is written while the probes close and re-open the
     # socket: the list may only grow by the append above; every other in-place operation on it anywhere in the class (clear, pop, remove, del,
     # slice store, sort ...) would change the header text of a report whose banner was already read.  Resetting must rebind the attribute.
